@@ -843,7 +843,13 @@ func (s *Identity) PrefixedName() string {
 
 // modulePrefixedName returns the module-qualified name for the identity.
 func (s *Identity) modulePrefixedName() string {
-	return fmt.Sprintf("%s:%s", module(s).Name, s.Name)
+	m := module(s)
+	if m == nil {
+		// The identity is defined in a submodule whose module is not
+		// loaded.
+		m = RootNode(s)
+	}
+	return fmt.Sprintf("%s:%s", m.Name, s.Name)
 }
 
 // IsDefined behaves the same as the implementation for Enum - it returns
